@@ -186,6 +186,12 @@ def build_harness(name, race=False):
     ov = overlay()
     binp = os.path.join(BUILD, "h_" + name + ("_race" if race else ""))
     tmpb = binp + f".tmp{os.getpid()}"   # build to a private name, then rename: concurrent checks share the final path
+    if os.path.exists(binp):
+        # seed the private name with the current binary: `go build` skips the (slow) link step when the target is up to date
+        try:
+            shutil.copy2(binp, tmpb)
+        except OSError:
+            pass
     cmd = ["go", "build", "-tags", "verif", "-overlay", ov, "-ldflags=-checklinkname=0", "-o", tmpb]
     if race:
         cmd.append("-race")
